@@ -244,6 +244,10 @@ func TestRegress(t *testing.T) {
 		if err := json.Unmarshal(rf.Case, &c); err != nil {
 			t.Fatal(err)
 		}
+		if rf.Test == "TestChaos" {
+			f, _ := runChaos(&c)
+			return true, f
+		}
 		f, _ := runCase(&c)
 		return true, f
 	})
